@@ -254,8 +254,24 @@ var Tails = []struct {
 }
 
 // Endless builds programs that never end by themselves.
-func Endless(r *prng.R) (string, []core.Event) {
-	switch r.Intn(17) {
+func Endless(r *prng.R) (string, []core.Event) { return EndlessK(r.Intn(EndlessShapes)) }
+
+// EndlessShapes is the number of shapes EndlessK knows.
+const EndlessShapes = 22
+
+// EndlessK builds endless program number k.
+func EndlessK(k int) (string, []core.Event) {
+	switch k {
+	case 17: // a pause too short to be one (below a nanosecond)
+		return "n := 0\nwhile true\n    n = n + 1\n    sleep 0.0000000001\nend\n", nil
+	case 18: // a non-positive pause now and then, not in every iteration
+		return "n := 0\nwhile true\n    n = n + 1\n    if n % 20 == 0\n        sleep 0\n    end\nend\n", nil
+	case 19: // computed pause that has gone negative, in a procedure
+		return "budget := 0.001\nfunc pause\n    budget = budget - 0.002\n    sleep budget\nend\nwhile true\n    pause\nend\n", nil
+	case 20: // zero pause inside a for loop inside a handler
+		return "on down x:num y:num\n    print x y\n    while true\n        for i := range 5\n            sleep 0\n            x = x + i\n        end\n    end\nend\n", []core.Event{{Name: "down", Num: []string{"1", "2"}}}
+	case 21: // alternating: a real pause once, then zero pauses for ever
+		return "sleep 0.01\nwhile true\n    sleep (0 - 0)\nend\n", nil
 	case 11:
 		return "p := {x:0 y:0}\nwhile true\n    p.x = p.x + 1\n    p.y = p.x\nend\n", nil
 	case 12:
